@@ -72,6 +72,21 @@ func (a *Adapter) table() []variant {
 		// re-splits of data||memo = "aa01"
 		add("resplit_data_memo_1", mk(func(c *types.MsgBridgeCallClaim) { c.Data, c.Memo = "aa", "01" }))
 		add("resplit_data_memo_2", mk(func(c *types.MsgBridgeCallClaim) { c.Data, c.Memo = "", "aa01" }))
+		// re-splits across every other boundary of the hash input whose two renderings can both stay valid:
+		// element boundary inside the amounts list ("1 23" / "12 3")
+		add("resplit_amounts_a", mk(func(c *types.MsgBridgeCallClaim) { c.Amounts = []sdkmath.Int{sdkmath.NewInt(1), sdkmath.NewInt(23)} }))
+		add("resplit_amounts_b", mk(func(c *types.MsgBridgeCallClaim) { c.Amounts = []sdkmath.Int{sdkmath.NewInt(12), sdkmath.NewInt(3)} }))
+		// last amount (decimal) | data (hex): "412"+"ab" / "4"+"12ab"
+		add("resplit_amount_data_a", mk(func(c *types.MsgBridgeCallClaim) { c.Amounts, c.Data = []sdkmath.Int{fx(3), sdkmath.NewInt(412)}, "ab" }))
+		add("resplit_amount_data_b", mk(func(c *types.MsgBridgeCallClaim) { c.Amounts, c.Data = []sdkmath.Int{fx(3), sdkmath.NewInt(4)}, "12ab" }))
+		// data (hex) | value (decimal): "aa12"+"34" / "aa"+"1234", and with empty data ""+"1234" / "12"+"34"
+		add("resplit_data_value_a", mk(func(c *types.MsgBridgeCallClaim) { c.Data, c.Value = "aa12", sdkmath.NewInt(34) }))
+		add("resplit_data_value_b", mk(func(c *types.MsgBridgeCallClaim) { c.Data, c.Value = "aa", sdkmath.NewInt(1234) }))
+		add("resplit_data_value_c", mk(func(c *types.MsgBridgeCallClaim) { c.Data, c.Value = "", sdkmath.NewInt(1234) }))
+		add("resplit_data_value_d", mk(func(c *types.MsgBridgeCallClaim) { c.Data, c.Value = "12", sdkmath.NewInt(34) }))
+		// value (decimal) | memo (hex): "12"+"34ab" / "1234"+"ab"
+		add("resplit_value_memo_a", mk(func(c *types.MsgBridgeCallClaim) { c.Value, c.Memo = sdkmath.NewInt(12), "34ab" }))
+		add("resplit_value_memo_b", mk(func(c *types.MsgBridgeCallClaim) { c.Value, c.Memo = sdkmath.NewInt(1234), "ab" }))
 	case "BridgeCallResult":
 		base := types.MsgBridgeCallResultClaim{ChainName: chain, EventNonce: n, BlockHeight: 1000, Nonce: a.call1,
 			TxOrigin: a.ext("origin/1"), Success: false, Cause: "aa01"}
@@ -108,6 +123,11 @@ func (a *Adapter) table() []variant {
 		// and of a concatenation in which the separator belongs to neither field
 		add("name_with_slash_end", mk(func(c *types.MsgBridgeTokenClaim) { c.Name, c.Symbol = "x/y/", fxtypes.DefaultDenom }))
 		add("symbol_with_slash_start", mk(func(c *types.MsgBridgeTokenClaim) { c.Name, c.Symbol = "x/y", "/"+fxtypes.DefaultDenom }))
+		// symbol (free-form) | decimals (decimal): "FY1"+"8" against the variant "symbol" = "FY"+"18"
+		add("resplit_symbol_decimals", mk(func(c *types.MsgBridgeTokenClaim) { c.Symbol, c.Decimals = "FY1", 8 }))
+		// decimals (decimal) | channel_ibc (hex): "181"+"ab" / "1"+"81ab"
+		add("resplit_decimals_channel_a", mk(func(c *types.MsgBridgeTokenClaim) { c.Decimals, c.ChannelIbc = 181, "ab" }))
+		add("resplit_decimals_channel_b", mk(func(c *types.MsgBridgeTokenClaim) { c.Decimals, c.ChannelIbc = 1, "81ab" }))
 	case "OracleSet":
 		m := a.osMembers
 		e3 := a.ext("ext/" + a.C.Oracle[2])
@@ -129,6 +149,10 @@ func (a *Adapter) table() []variant {
 		}))
 		add("member_removed", mk(func(c *types.MsgOracleSetUpdatedClaim) { c.Members = c.Members[:1] }))
 		add("members_reordered", mk(func(c *types.MsgOracleSetUpdatedClaim) { c.Members = []types.BridgeValidator{m[1], m[0]} }))
+		// block_height (decimal) | oracle_set_nonce (decimal): "11"+"1" / "1"+"11" (set 11 does not exist: the handler
+		// returns an error, the event is observed without effect)
+		add("resplit_height_setnonce_a", mk(func(c *types.MsgOracleSetUpdatedClaim) { c.BlockHeight, c.OracleSetNonce = 11, 1 }))
+		add("resplit_height_setnonce_b", mk(func(c *types.MsgOracleSetUpdatedClaim) { c.BlockHeight, c.OracleSetNonce = 1, 11 }))
 		// nonce 1 with other members than the stored set: "potential bridge highjacking" panic
 		bad("set_nonce_wrong_members", mk(func(c *types.MsgOracleSetUpdatedClaim) {
 			c.OracleSetNonce = 1
@@ -139,3 +163,11 @@ func (a *Adapter) table() []variant {
 	}
 	return out
 }
+
+// Adjacent fields for which NO re-split exists, because one side has a rigid rendering: external
+// addresses (exactly 42 checksummed / 34 base58check characters), booleans, and the event nonce
+// (fixed for the nonce under test, and part of the attestation key besides the hash):
+// height|event_nonce, event_nonce|token, event_nonce|call_nonce, set_nonce|event_nonce, every
+// address|x and x|address boundary (incl. receiver|target_ibc: fxcore's address verifier only accepts
+// 20-byte bech32 addresses, checked against the real ValidateBasic), tokens "[a b]" | amounts,
+// success|cause, member power|address.
